@@ -222,6 +222,33 @@ def run(ctx):
         ('rgb_to_quat', lambda a: qslst.rgb_to_quat(*a), [rs.rand(3, 4, 3)]), ('quat_to_rgb', lambda a: qslst.quat_to_rgb(*a), [rs.rand(3, 4, 4)]), ('add_awgn_snr', lambda a: qslst.add_awgn_snr(a[0], 10.0, rng=np.random.default_rng(0)), [img]),
         ('psnr', lambda a: qslst.psnr(*a), [rs.rand(3, 4), rs.rand(3, 4)]), ('relative_error', lambda a: qslst.relative_error(*a), [rs.rand(3, 4), rs.rand(3, 4)]),
     ]
+    # the remaining public functions of the anchored modules (reflector builders with non-unit targets, Givens generators, component kernels,
+    # structure checks, verification helpers, null-space wrappers, image helpers and metrics)
+    _e1 = np.zeros(3); _e1[0] = 3.0; _e12 = np.array([1.0, 1.0, 0.0]); _a3 = Qm(3, 1).reshape(3)
+    _tri_in = quaternion.as_quat_array(np.concatenate([np.triu(np.tril(rs.rand(4, 4), 1), -1)[..., None], np.zeros((4, 4, 3))], axis=-1))
+    _g = [rs.rand(4), rs.rand(4)]
+    try: _lu = LU.quaternion_lu(S, return_p=True)
+    except Exception: _lu = None
+    try: _ev = eigen.quaternion_eigendecomposition(Hm)
+    except Exception: _ev = None
+    calls += [
+        ('householder_vector[3 e1]', lambda a: tri.householder_vector(*a), [_a3.copy(), _e1.copy() / 3.0]), ('householder_matrix[3 e1]', lambda a: tri.householder_matrix(*a), [_a3.copy(), _e1.copy()]),
+        ('householder_matrix[e1+e2]', lambda a: tri.householder_matrix(*a), [_a3.copy(), _e12.copy()]), ('householder_matrix[-0.5 e2]', lambda a: tri.householder_matrix(*a), [_a3.copy(), np.array([0.0, -0.5, 0.0])]),
+        ('internal_tridiagonalizer', lambda a: tri.internal_tridiagonalizer(*a), [Hm.copy()]), ('check_tridiagonal', lambda a: tri.check_tridiagonal(*a), [_tri_in]),
+        ('check_hessenberg', lambda a: hessenberg.check_hessenberg(*a), [S.copy()]), ('is_hessenberg', lambda a: hessenberg.is_hessenberg(*a), [S.copy()]),
+        ('ggivens', lambda a: utils.ggivens(*a), _g), ('GRSGivens', lambda a: utils.GRSGivens(*a), [rs.rand(4)]),
+        ('absQsparse', lambda a: utils.absQsparse(*a), comp(A)), ('dotinvQsparse', lambda a: utils.dotinvQsparse(*a), comp(A)),
+        ('quat_hermitian', lambda a: utils.quat_hermitian(*a), [A.copy()]), ('quat_matmat', lambda a: utils.quat_matmat(*a), [A.copy(), B.copy()]), ('quat_frobenius_norm', lambda a: utils.quat_frobenius_norm(*a), [A.copy()]),
+        ('quat_kernel[left]', lambda a: utils.quat_kernel(a[0], 'left'), [Qm(4, 2)]), ('quat_null_left', lambda a: utils.quat_null_left(*a), [Qm(4, 2)]), ('quat_null_right', lambda a: utils.quat_null_right(*a), [Qm(2, 4)]),
+        ('compute_real_svd_pinv', lambda a: utils.compute_real_svd_pinv(*a), [rs.rand(4, 3)]),
+        ('quaternion_modulus', lambda a: LU.quaternion_modulus(*a), [A.copy()]), ('quaternion_triu', lambda a: LU.quaternion_triu(a[0], 1), [S.copy()]), ('quaternion_tril', lambda a: LU.quaternion_tril(a[0], -1), [S.copy()]),
+        ('quaternion_eigenvalues', lambda a: eigen.quaternion_eigenvalues(*a), [Hm.copy()]), ('quaternion_eigenvectors', lambda a: eigen.quaternion_eigenvectors(*a), [Hm.copy()]),
+        ('build_psf_gaussian', lambda a: qslst.build_psf_gaussian(2, 1.5), []), ('build_psf_motion', lambda a: qslst.build_psf_motion(5, 30.0), []),
+        ('psnr', lambda a: qslst.psnr(*a), [rs.rand(3, 4), rs.rand(3, 4)]), ('relative_error', lambda a: qslst.relative_error(*a), [rs.rand(3, 4), rs.rand(3, 4)]),
+        ('split_quat_channels', lambda a: qslst.split_quat_channels(*a), [rs.rand(3, 4, 4)]), ('stack_quat_channels', lambda a: qslst.stack_quat_channels(*a), [rs.rand(3, 4) for _ in range(4)]),
+    ]
+    if _lu is not None: calls.append(('verify_lu_decomposition', lambda a: LU.verify_lu_decomposition(*a), [S.copy(), _lu[0].copy(), _lu[1].copy(), _lu[2].copy()]))
+    if _ev is not None: calls.append(('verify_eigendecomposition', lambda a: eigen.verify_eigendecomposition(*a), [Hm.copy(), np.array(_ev[0]).copy(), np.array(_ev[1]).copy()]))
     documented_inplace = {'UtriangleQsparse': 'documented: "Solution vector components (overwrites input b)"'}
     for name, f, args in calls:
         before = [digest(a) for a in args]
@@ -320,7 +347,7 @@ def run(ctx):
     ctx.cov['histories'] = nh; ctx.cov['exhaustive'] = True; ctx.cov['traces_validated_against_impl'] = nh
     ctx.cov['reseed_sites'] = info['reseed_sites'] if info else None
     ctx.cov['rule'] = (f'every call history of length <= {L} over a pool of 3-7 problems of different shapes per solver class and configuration (11 class/config pairs), exhaustively: fields hashed before/after each call, '
-                       'last result compared bit-for-bit with a fresh object (global seed set before each call); 46 public functions: SHA-256 of every argument before/after and repeatability; both import styles in fresh interpreters. '
+                       'last result compared bit-for-bit with a fresh object (global seed set before each call); 78 public functions: SHA-256 of every argument before/after and repeatability; both import styles in fresh interpreters. '
                        'Non-trivial = history of length >= 2, a mutation probe or the import probe.')
     return cm.finish(ctx, 'proof', '', ASSUME)
 
